@@ -10,6 +10,7 @@ import (
 	"strings"
 	"time"
 
+	"github.com/RoaringBitmap/roaring"
 	"github.com/akrennmair/updog"
 	"github.com/akrennmair/updog/verifharness/gen"
 	"github.com/akrennmair/updog/verifharness/ix"
@@ -33,7 +34,7 @@ var (
 	bucketKinds  = []string{"ok", "absent", "other-name"}
 	schemaKinds  = []string{"ok", "absent", "empty", "trunc-1", "trunc-2", "trunc-5", "trunc-10", "trunc-half", "trunc-last3", "trunc-last1", "trunc-20", "bitflip", "other-gob-type", "garbage"}
 	counterKinds = []string{"ok", "absent", "len0", "len1", "len2", "len3", "len5", "len8"}
-	bitmapKinds  = []string{"ok", "one-truncated", "all-truncated", "garbage", "empty", "short-key", "long-key", "foreign-key"}
+	bitmapKinds  = []string{"ok", "one-truncated", "all-truncated", "garbage", "empty", "short-key", "long-key", "foreign-key", "empty-serialised", "header-byte-zeroed"}
 )
 
 // mustFail: the property lists these as damage that must be reported as an error.
@@ -142,6 +143,18 @@ func applyDamage(path string, d damage, rng *rand.Rand) error {
 				case "empty":
 					if i%2 == 0 {
 						_ = b.Put(k, []byte{})
+					}
+				case "empty-serialised":
+					// a value that decodes fine, to a bitmap without any container
+					if i%2 == 0 {
+						eb, _ := roaring.New().ToBytes()
+						_ = b.Put(k, eb)
+					}
+				case "header-byte-zeroed":
+					// still plausible headers: container count / run count / first key zeroed
+					if len(v) > 12 && i%2 == 0 {
+						v[4+rng.Intn(8)] = 0
+						_ = b.Put(k, v)
 					}
 				}
 			}
@@ -365,9 +378,45 @@ func runC15(r *vf.Run) {
 					vf.Try(func() { _, _ = runProbes(idx, b.ps[:min(5, len(b.ps))]) })
 				}
 				var c1, c2 error
-				if p, msg, _ := vf.Try(func() { c1 = idx.Close(); c2 = idx.Close() }); p {
+				closed := make(chan [2]string, 1)
+				go func() {
+					var p bool
+					var msg string
+					p, msg, _ = vf.Try(func() {
+						c1 = idx.Close()
+						c2 = idx.Close()
+						// "more than once" is not "exactly twice"
+						if e := idx.Close(); e != nil && c2 == nil {
+							c2 = e
+						}
+						if e := idx.Close(); e != nil && c2 == nil {
+							c2 = e
+						}
+					})
+					if p {
+						closed <- [2]string{"panic", msg}
+					} else {
+						closed <- [2]string{"", ""}
+					}
+				}()
+				var cres [2]string
+				select {
+				case cres = <-closed:
+				case <-time.After(60 * time.Second):
 					ww := w()
-					ww["panic"] = msg
+					stacks := joinStacks(mon.Stacks("updog"))
+					ww["stacks"] = head(stacks, 6000)
+					if c := mon.ClassifyDump(stacks); c != "" {
+						ww["blocked"] = c
+						r.Violation(cid, "close-hangs", ww)
+					} else {
+						r.Inconclusive(cid + ": repeated Close still running after 60 s")
+					}
+					return
+				}
+				if cres[0] == "panic" {
+					ww := w()
+					ww["panic"] = cres[1]
 					r.Violation(cid, "close-panics", ww)
 					break
 				}
